@@ -193,7 +193,7 @@ Definition step (st : gstate) (p : rpiece) : gstate :=
   | RTrivia k c => write_trivia st k c
   | RToken c l sc => write_token st c l sc
   | RSymbol s sc => write_symbol st s sc
-  | RRaw s => if match s with [32] => true | _ => false end then push_space st else push_str st s
+  | RRaw s => push_str st s      (* [output.push(' ')] = [push_str " "]: no line break in it *)
   end.
 
 Definition run (st : gstate) (ps : list rpiece) : gstate := fold_left step ps st.
@@ -345,6 +345,6 @@ Fixpoint lines_fit (cur : nat) (cm : bool) (ps : list rpiece) : bool :=
 (** [ShiftTokenLine] on resolved pieces *)
 Definition shift_piece (k : nat) (p : rpiece) : rpiece :=
   match p with
-  | RToken c (Some l) sc => RToken c (Some (l + k)) sc
+  | RToken c (Some l) sc => RToken c (Some (l + k)%nat) sc
   | _ => p
   end.
